@@ -47,6 +47,7 @@ type c18Input struct {
 	HoldSite    string `json:"holdSite"`    // "hold-close": the holdAtCall-th call at this site stays in flight for holdNs (ignoring its
 	HoldAtCall  int    `json:"holdAtCall"`  // context) and then returns normally; Close is issued closeAt ns after it was entered
 	HoldNs      int64  `json:"holdNs"`
+	HoldCtx     bool   `json:"holdCtx"`    // the held call HONOURS cancellation: it returns only when its context ends (holdNs = safety net)
 	Shape       string `json:"shape"`      // pipeline RESULT shape ("" = well-behaved echo; see c18Shapes)
 	RepeatWork  bool   `json:"repeatWork"` // the log provider offers the same work ids on every tick (new check block hash each time)
 	Rounds      bool   `json:"rounds"`     // the harness plays libocr: one Observation per second with a previous outcome that surfaces fresh
@@ -101,6 +102,8 @@ type c18Impl struct {
 	RoundsDone      int            `json:"roundsDone"`           // foreground Observation calls that returned
 	RoundsBlocked   int            `json:"roundsBlocked"`        // … that had not returned 5 virtual seconds later (the open plugin hangs)
 	RoundErrs       int            `json:"roundErrs"`            // … that returned an error
+	LeakedSoon      map[string]int `json:"leakedSoon"`           // goroutines of the repository by class ONE virtual second after Close returned
+	HeldBackNs      int64          `json:"heldBackNs"`           // held call: virtual ns from Close's return to the call's return (negative: before; -1<<62: never)
 	Progress        int            `json:"progress"`             // check-pipeline calls of the instance under test that completed before its Close
 	Trace           []c18Ev        `json:"trace,omitempty"`      // hook events of every recoverer, in log order (c18_trace_test.go)
 	TraceKinds      []string       `json:"traceKinds,omitempty"` // service kind per recoverer
@@ -151,6 +154,12 @@ func c18Fill(in c18Input) c18Input {
 		in.Services = 2 // report coordinator, polling observer
 		in.AuxMax = 2   // the coordinator's two cache cleaners
 		in.Work = 0
+	}
+	if in.HoldSite == c18SiteBuilder || in.PanicSite == c18SiteBuilder {
+		in.Rounds = true // the final flows only build payloads for proposals the rounds have surfaced
+	}
+	if in.HoldCtx {
+		in.LatencyNs, in.HonorCtx = 0, true // every call in flight honours cancellation: nothing may linger after Close
 	}
 	if in.HoldSite == c18SitePipeline || in.HoldSite == c18SitePost {
 		if in.Work == 0 {
@@ -383,7 +392,15 @@ func c18Case(t *testing.T, in c18Input, ck func(c18Impl)) {
 	impl.Panics, _, _, _ = pr.panicInfo()
 	ck(impl)
 
-	time.Sleep(25*time.Second + 137*time.Millisecond)
+	closeBack := int64(time.Since(pr.t0))
+	time.Sleep(time.Second)
+	synctest.Wait()
+	impl.LeakedSoon, _ = c18Goroutines()
+	impl.HeldBackNs = -1 << 62
+	if hb := pr.heldReturnedAt(); hb >= 0 {
+		impl.HeldBackNs = hb - closeBack
+	}
+	time.Sleep(24*time.Second + 137*time.Millisecond)
 	c1 := pr.snapshot()
 	time.Sleep(10 * time.Second)
 	synctest.Wait()
@@ -684,6 +701,19 @@ func c18Edge() []c18Input {
 			out = append(out, c18Input{Family: fam, Reuse: 1, ReuseRunNs: 1500 * c18ms, ReuseGapNs: gap, ReuseCfg: "diff", Scenario: "close", CloseAtNs: 3*c18s + 137*c18ms, Work: 2})
 		}
 	}
+	// … and the other kind of slow call: one that HONOURS cancellation and returns only when its context ends, in flight at
+	// Close, at every site that is handed a context (providers, builder, pipeline, state updater): Close must reach it, and
+	// one virtual second after Close returned nothing of the instance may be running
+	for _, site := range []string{c18SiteLog, c18SiteRecov, c18SiteGetter, c18SiteEvents, c18SitePipeline, c18SitePost, c18SiteBuilder} {
+		for _, at := range []int64{c18ms, 2*c18s + 137*c18ms, 12 * c18s} {
+			out = append(out, c18Input{Scenario: "hold-close", HoldSite: site, HoldAtCall: 2, HoldNs: 45 * c18s, HoldCtx: true, CloseAtNs: at})
+		}
+	}
+	for _, site := range []string{c18SiteV2Perform, c18SiteV2Stale, c18SiteV2Source, c18SiteV2Check} {
+		for _, at := range []int64{c18ms, 2*c18s + 137*c18ms} {
+			out = append(out, c18Input{Family: "v2", Scenario: "hold-close", HoldSite: site, HoldAtCall: 3, HoldNs: 45 * c18s, HoldCtx: true, CloseAtNs: at})
+		}
+	}
 	// the OCR2 (v2) plugin: Close at instants across its life, and while a log poll / registry call is in flight
 	for k := 0; k <= 2; k++ {
 		out = append(out, c18Input{Family: "v2", Scenario: "close", Yields: k})
@@ -783,8 +813,16 @@ func c18GenBase(r *Rng) c18Input {
 	case 10, 11: // Close while a provider call is in flight
 		in.Scenario = "hold-close"
 		sites := []string{c18SiteLog, c18SiteRecov, c18SiteGetter, c18SiteEvents, c18SitePipeline, c18SitePost}
+		sites = append(sites, c18SiteBuilder)
 		in.HoldSite = sites[r.Intn(len(sites))]
 		in.HoldAtCall = r.Range(1, 5)
+		if r.Chance(40) {
+			in.HoldCtx = true
+			in.HoldNs = 45 * c18s
+			in.CloseAtNs = []int64{0, 1, c18ms, c18s, 2*c18s + 137*c18ms, 7 * c18s, 19 * c18s, 21 * c18s}[r.Intn(8)]
+			in.Work = r.Intn(4)
+			return in
+		}
 		in.HoldNs = []int64{137 * c18ms, c18s, 3 * c18s, 7 * c18s, 19 * c18s}[r.Intn(5)]
 		in.CloseAtNs = []int64{0, 1, c18ms, in.HoldNs / 2, in.HoldNs - 1, in.HoldNs, in.HoldNs + 1, in.HoldNs + 500*c18ms}[r.Intn(8)]
 		in.Work = r.Intn(4)
